@@ -138,6 +138,9 @@ def build(tier, seed):
     keyed += [((j + 0.5) / len(lens), 2, j, c) for j, c in enumerate(lens)]
     keyed += [((j + 0.5) / len(seqs), 3, j, c) for j, c in enumerate(seqs)]
     keyed += [((j + 0.5) / len(edges), 4, j, c) for j, c in enumerate(edges)]
+    # every operation of the statement applied to an object WITH A HISTORY (the operation itself before, then any public edit)
+    hists = [{'kind': 'hist', 'cls': cls, 'subject': sj} for cls in ('Signal', 'AccSignal') for sj in sorted(HIST_SUBJECTS)]
+    keyed += [((j + 0.5) / len(hists), 5, j, c) for j, c in enumerate(hists)]
     keyed.sort(key=lambda t: t[:3])
     cases = [t[3] for t in keyed]
     return {
@@ -186,7 +189,7 @@ def build(tier, seed):
                    'linearity_tol': 'relative to peak: 1e-10; band-pass f2/f1>4: 1e-9 (order 3), 1e-7 (order 4); narrow '
                                     'band-pass: 1e-9 (order 2), 1e-6 (order 3), 1e-3 (order 4) - about 100x the rounding noise '
                                     "measured for scipy's transfer-function form in each conditioning class"},
-        'required_classes': ['type-band', 'type-low', 'type-high', 'order-1', 'order-2', 'order-3', 'order-4',
+        'required_classes': ['operation-after-history', 'type-band', 'type-low', 'type-high', 'order-1', 'order-2', 'order-3', 'order-4',
                              'gibbs-None', 'gibbs-start', 'gibbs-end', 'gibbs-mid',
                              'cutoff-tuple', 'cutoff-list', 'cutoff-ndarray',
                              'gain-pass', 'gain-transition', 'gain-stop', 'tol-narrow-band', 'default-order',
@@ -1263,7 +1266,80 @@ def run_word(c):
     return r
 
 
+HIST_SUBJECTS = {
+    'remove_poly(0)': lambda o: o.remove_poly(0), 'remove_poly(1)': lambda o: o.remove_poly(1), 'remove_poly(2)': lambda o: o.remove_poly(2),
+    'remove_poly(4)': lambda o: o.remove_poly(4),
+    'running_average(3)': lambda o: o.running_average(3), 'running_average(8)': lambda o: o.running_average(8),
+    'butter_pass((2, 20), order 2)': lambda o: o.butter_pass((2.0, 20.0), filter_order=2),
+    'butter_pass([None, 15], gibbs mid)': lambda o: o.butter_pass([None, 15.0], filter_order=3, remove_gibbs='mid'),
+    'add_constant(0.7)': lambda o: o.add_constant(0.7),
+    'add_series': lambda o: o.add_series(np.cos(np.arange(o.npts) * 0.3)),
+}
+
+
+def _hist_record(n=48):
+    i = np.arange(n)
+    return np.sin(i * 0.41) + 0.4 * np.cos(i * 1.3) + 0.02 * i - 0.0007 * i * i + 0.3
+
+
+def run_hist(c):
+    """The operation is a function of the record it finds (and its arguments): applied to an object that went through the same operation
+    before and then through any public edit, it must leave what it leaves on a fresh object holding the same record.  For the
+    detrending additionally the statement itself: the best-fit polynomial of the result is zero."""
+    from . import c04
+    r = Res()
+    cls = getattr(eqsig, c['cls'])
+    sname = c['subject']
+    subject = HIST_SUBJECTS[sname]
+    ops, kind = c04.build_ops(c['cls'])
+    edits = [(n_, f_) for n_, f_ in ops.items() if kind[n_][0] == 'mut']
+    rec = _hist_record()
+    r.nontrivial += 1
+    for ename, edit in edits:
+        sub = {'cls': c['cls'], 'operation': sname, 'history': [sname, ename, sname]}
+        r.states += 1
+        try:
+            o = cls(rec.copy(), 0.01)
+            o._mc_n0 = len(rec)
+            subject(o)
+        except Exception as e:
+            r.fail('history.call', sub, 'first application raises %s: %s' % (type(e).__name__, str(e)[:150]))
+            continue
+        try:
+            edit(o)
+        except Exception:
+            r.disabled['history: edit raises (%s)' % ename] += 1
+        try:
+            before = np.array(o.values, dtype=float)
+            twin = cls(before.copy(), 0.01)
+        except Exception:
+            continue
+        ok, _ = r.call('history.call', sub, subject, o)
+        ok2, _ = r.call('history.call', dict(sub, on='fresh twin'), subject, twin)
+        if not (ok and ok2):
+            continue
+        r.transitions += 1
+        r.cls('operation-after-history')
+        got = np.asarray(o.values, dtype=float)
+        want = np.asarray(twin.values, dtype=float)
+        scale = max(float(np.max(np.abs(before))), 1e-300)
+        r.expect_close('history.same-as-fresh', sub, got, want, rtol=0.0, atol=1e-9 * scale,
+                       what='record left by the operation on an object with a history vs on a fresh object holding the same record')
+        if sname.startswith('remove_poly') and got.shape == before.shape and len(got) > 6:
+            k = int(sname[12:-1])
+            t = np.linspace(-1, 1, len(got))
+            V = np.polynomial.legendre.legvander(t, k)
+            coef, *_ = np.linalg.lstsq(V, got, rcond=None)
+            fit = V @ coef
+            r.expect('history.detrended', sub, float(np.max(np.abs(fit))) <= 1e-7 * scale,
+                     'after remove_poly(%d) on an object with a history the best-fit polynomial of degree %d of the record is not zero '
+                     '(max |fit| = %.3g)' % (k, k, float(np.max(np.abs(fit)))), observed=float(np.max(np.abs(fit))), expected=0.0)
+    return r
+
+
 def run_case(c):
+    if c['kind'] == 'hist':
+        return run_hist(c)
     if c['kind'] == 'gain':
         return run_gain(c)
     if c['kind'] == 'lin':
@@ -1280,6 +1356,8 @@ def run_case(c):
 def snippet(case, v):
     sub = v.get('sub') or {}
     head = "import numpy as np, eqsig\nfrom eqsig.fns import generic\nsub = %r\n" % (sub,)
+    if case.get('kind') == 'hist':
+        return head + "# see run_hist in mcheck/props/c17.py: cls(record, 0.01); operation; history[1] (C04 alphabet); operation again vs the operation on a fresh object with the same record\n"
     if case.get('kind') in ('seq', 'edge'):
         return head + (
             "mk = lambda cut, cont: tuple(cut) if cont == 'tuple' else list(cut) if cont == 'list' else np.array(cut, float)\n"
